@@ -118,7 +118,7 @@ def run_pair(wa, wb, ks=None, max_k=None, offset=0, slice_=None, of=None):
     env = dict(os.environ)
     spec = {'a': wa, 'b': wb, 'ks': ks, 'max_k': max_k, 'offset': offset, 'slice': slice_, 'of': of}
     out = subprocess.run([sys.executable, '-B', '-W', 'ignore', '-m', 'mxv.sched', json.dumps(spec)], env=env,
-                         capture_output=True, text=True, timeout=3000)
+                         capture_output=True, text=True, timeout=5400)
     if out.returncode != 0 or not out.stdout:
         raise RuntimeError('schedule driver failed: %s' % out.stderr[-600:])
     return json.loads(out.stdout)
@@ -193,11 +193,16 @@ def run_shard(ctx, shard, acc):
     per = 2 if ctx.quick else 6     # Hypothesis' first example is always the minimal one; the following are drawn
 
     def explore_pair(wa, wb, rel, slice_=None, of=None):
-        # quick tier: the fixed panel is explored exhaustively up to 3200 lines per pair (three of the four pairs completely), drawn pairs are thinned to 400 schedules; thorough: everything exhaustively
+        # quick tier: the fixed panel is explored exhaustively up to 3200 lines per pair (three of the four pairs completely), drawn pairs are thinned to 400 schedules; thorough: panel pairs exhaustively, drawn pairs up to 2500 schedules
         # (the score pair that also writes its files is thinned like a drawn pair; its last 80 lines - the file
         # I/O - are always explored completely)
-        res = run_pair(wa, wb, max_k=(400 if rel != 'panel' or wa.get('write') else 3200 // (of or 1)) if ctx.quick else None,
-                       offset=ctx.seed,
+        if ctx.quick:
+            max_k = 400 if rel != 'panel' or wa.get('write') else 3200 // (of or 1)
+        else:
+            # thorough: panel pairs completely (sliced over the shards); a drawn pair up to 2500 schedules (complete for
+            # all but the note-sized workloads, whose 12 000 lines would take an hour in one shard)
+            max_k = None if rel == 'panel' else 2500
+        res = run_pair(wa, wb, max_k=max_k, offset=ctx.seed,
                        slice_=slice_, of=of if (of or 1) > 1 else None)
         acc.evaluations += res['ran'] - 1
         acc.case({'a': wa, 'b': wb, 'schedules': res['ran'], 'first_use_schedules': res['nontrivial']}, True,
